@@ -25,6 +25,7 @@ import re
 import shutil
 import subprocess
 import tempfile
+import time
 
 import realcode as R
 
@@ -35,19 +36,8 @@ EXT = {'json': 'json', 'yaml': 'yaml', 'toml': 'toml', 'env': 'env', 'flags': 't
 # ------------------------------------------------------------------------------------------------------------------------ KNOWN
 # Behaviour of the real code on the pinned HEAD that breaks a clause of the statement (checked by hand).  Each entry switches ONE
 # tolerance below (look for known('<id>')); deleting an entry re-arms the strict oracle for it.
+# (trace-of-cached-import was repaired in ucg, c510806: the import value cache is reset per built file; the strict oracle is armed.)
 KNOWN = [
-    dict(id='trace-of-cached-import',
-         input='lib.ucg = `let name = TRACE "shared";`, a.ucg = `let s = import "lib.ucg";`, b.ucg = `let s = import "lib.ucg";`; `ucg build a.ucg b.ucg` (also `ucg build a.ucg a.ucg`)',
-         observed='`TRACE: "shared" = "shared" at file: <P>/lib.ucg line: 1 column: 18` is printed once, under `Building a.ucg`; under `Building b.ucg` nothing is printed. '
-                  '`ucg build b.ucg` alone prints the line',
-         clause='second sentence: sharing of imported values between the files of one invocation is never observable',
-         what='the value of an imported file is computed once per invocation: when a later file of the same invocation imports it again (directly or through other imports) '
-              'the TRACE expressions of the imported file do not print again, so the stderr of the batch is not the concatenation of the stderr of the builds alone, and the '
-              'second file\'s output depends on what was built before it',
-         replay='lib.ucg: `let name = TRACE "shared";`  a.ucg and b.ucg: `let s = import "lib.ucg";`  `ucg build b.ucg` prints `Building b.ucg` + the TRACE line; '
-                '`ucg build a.ucg b.ucg` prints the TRACE line only after `Building a.ucg`; `ucg build a.ucg a.ucg` prints it only after the first `Building a.ucg`',
-         excluded='tolerated: in the output of a file of a batch, a `TRACE: ... at file: G` line may be missing (or present) when G is another file than the one being built '
-                  'and G is imported, directly or transitively, by a file built earlier in the same invocation; everything else is compared exactly'),
 ]
 
 
@@ -98,7 +88,7 @@ class Project(object):
 
 
 def base_env():
-    env = {k: v for k, v in os.environ.items() if not k.startswith('VERIF_C16')}
+    env = {k: v for k, v in os.environ.items() if not k.startswith('VERIF_C16') and k != 'UCG_IMPORT_PATH'}
     env[SET_VAR] = SET_VAL
     return env
 
@@ -188,7 +178,8 @@ def build_alone(proj, f):
     try:
         rc, pre, segs, out = sb.run([f])
         if len(segs) != 1 or segs[0][0] != f:
-            raise Mismatch('`ucg build %s` alone does not announce exactly `Building %s`' % (f, f), 'Building ' + f, out[-600:])
+            # the lines of a batch could not be attributed to files: no verdict, not a violation
+            raise RuntimeError('harness: `ucg build %s` alone does not announce exactly `Building %s`: %r' % (f, f, out[-300:]))
         return dict(rc=rc, pre=pre, lines=segs[0][1], arts=sb.artifacts(), raw=out)
     finally:
         sb.close()
@@ -259,31 +250,34 @@ def violation_of(proj, m, cur):
                 input=dict(source=proj.describe(), data=proj.data, expected=m.expected, observed=m.observed, how=how))
 
 
-def batch_task(proj, alone, chunk, stop):
-    """chunk: list of (args, twice) -> (invocations, None | violation dict)"""
+def batch_task(proj, alone, chunk, stop, deadline):
+    """chunk: list of (args, twice) -> (invocations, configurations skipped, None | violation dict)"""
     sb = Sandbox(proj)
     cur = None
+    skipped = 0
     try:
         for args, twice in chunk:
-            if stop and stop[0]:
-                break
+            if stop[0] or time.time() > deadline:
+                skipped += 1
+                continue
             cur = (args, 1)
             check_invocation(sb, alone, args)
             if twice:
                 cur = (args, 2)
                 check_invocation(sb, alone, args, keep_artifacts=True)
-        return sb.runs, None
+        return sb.runs, skipped, None
     except Mismatch as m:
-        return sb.runs, violation_of(proj, m, cur)
+        return sb.runs, skipped, violation_of(proj, m, cur)
     finally:
         sb.close()
 
 
-def run_all(items, chunk_size=3):
-    """items: list of (Project, [(args, twice)]).  -> (alone builds, batch invocations, first violation or None)"""
+def run_all(items, seconds, chunk_size=3):
+    """items: list of (Project, [(args, twice)]).  -> (alone builds, batch invocations, configurations not run in time, first violation or None)"""
     R.ucg_binary()
+    deadline = time.time() + seconds
     stop = [False]
-    n_alone = n_batch = 0
+    n_alone = n_batch = n_skipped = 0
     viol = []
     with concurrent.futures.ThreadPoolExecutor(max_workers=WORKERS) as ex:
         fut = {}
@@ -292,24 +286,22 @@ def run_all(items, chunk_size=3):
                 fut[(pi, f)] = ex.submit(build_alone, proj, f)
         alone = [dict() for _ in items]
         for (pi, f), fu in fut.items():
-            try:
-                alone[pi][f] = fu.result()
-                n_alone += 1
-            except Mismatch as m:
-                viol.append(((pi, -1), violation_of(items[pi][0], m, None)))
-        if viol:
-            return n_alone, 0, sorted(viol, key=lambda x: x[0])[0][1]
+            alone[pi][f] = fu.result()
+            n_alone += 1
+        # chunk 0 of every project, then chunk 1 of every project, ...: when time runs out the tail of every project's list is dropped
         fut = {}
-        for pi, (proj, cfgs) in enumerate(items):
-            for ci in range(0, len(cfgs), chunk_size):
-                fut[(pi, ci)] = ex.submit(batch_task, proj, alone[pi], cfgs[ci:ci + chunk_size], stop)
+        for ci in range(0, max(len(c) for _, c in items), chunk_size):
+            for pi, (proj, cfgs) in enumerate(items):
+                if ci < len(cfgs):
+                    fut[(pi, ci)] = ex.submit(batch_task, proj, alone[pi], cfgs[ci:ci + chunk_size], stop, deadline)
         for key, fu in fut.items():
-            runs, v = fu.result()
+            runs, skipped, v = fu.result()
             n_batch += runs
+            n_skipped += skipped
             if v:
                 stop[0] = True
                 viol.append((key, v))
-    return n_alone, n_batch, (sorted(viol, key=lambda x: x[0])[0][1] if viol else None)
+    return n_alone, n_batch, n_skipped, (sorted(viol, key=lambda x: x[0])[0][1] if viol else None)
 
 
 # ------------------------------------------------------------------------------------------------------------------------ designed projects
@@ -321,7 +313,8 @@ def designed_projects():
         'a.ucg': 'let lib = import "lib.ucg";\nlet x = lib.foo + 1;\nout json x;\n',
         'b.ucg': '\n\n\nlet l = import "lib.ucg";\nlet y = not l;\nout json 1;\n',
         'c.ucg': 'let l1 = import "lib.ucg";\n\n  let l2 = import "./lib.ucg";\nlet y = not l2;\n',
-    }), [['a.ucg', 'b.ucg'], ['b.ucg', 'a.ucg'], ['c.ucg', 'b.ucg'], ['a.ucg', 'c.ucg', 'b.ucg'], ['lib.ucg', 'b.ucg', 'c.ucg']]))
+        'd.ucg': '\n  let l = import "lib.ucg";\nlet y = 1 + l;\n',
+    }), [['a.ucg', 'b.ucg'], ['a.ucg', 'd.ucg'], ['b.ucg', 'a.ucg', 'd.ucg'], ['c.ucg', 'b.ucg'], ['d.ucg', 'c.ucg', 'b.ucg'], ['lib.ucg', 'b.ucg', 'c.ucg', 'd.ucg']]))
     # fixed f342db1: output locks were never released
     P.append((Project('out_lock', {
         'lib.ucg': 'let foo = 1;\nout json {foo = foo};\n',
@@ -354,13 +347,23 @@ def designed_projects():
         'unset.ucg': 'let l = import "lib.ucg";\nlet r = env.%s;\nout json r;\n' % UNSET_VAR,
         'conv.ucg': 'let l = import "lib.ucg";\nout toml {a = NULL, v = l.v};\n',
     }), [['badlib.ucg', 'imp_bad.ucg'], ['imp_bad.ucg', 'badlib.ucg', 'lib.ucg'], ['missing.ucg', 'conv.ucg', 'lib.ucg'], ['unset.ucg', 'unset.ucg', 'lib.ucg'], ['conv.ucg', 'imp_bad.ucg', 'missing.ucg'], []]))
+    # libraries that fail while they are evaluated (not in the type checker), imported by several files
+    P.append((Project('rt_lib', {
+        'rtlib.ucg': 'let v = 5;\nlet e = env.%s;\nlet w = 7;\n' % UNSET_VAR,
+        'a.ucg': 'let r = import "rtlib.ucg";\nout json {v = r.v};\n',
+        'b.ucg': '\nlet r = import "./rtlib.ucg";\nout yaml {w = r.w};\n',
+        'rng.ucg': 'let v = 50;\nout json {v = v};\nlet r :: in 1..10 = v;\nlet after = 1;\n',
+        'c.ucg': 'let g = import "rng.ucg";\nout toml {v = g.v, after = g.after};\n',
+        'good.ucg': 'let t = {a = 1};\nout flags t;\n',
+    }), [['a.ucg', 'b.ucg'], ['b.ucg', 'a.ucg', 'a.ucg'], ['c.ucg', 'c.ucg', 'good.ucg'], ['rng.ucg', 'rng.ucg'], ['rtlib.ucg', 'a.ucg', 'rng.ucg', 'c.ucg', 'good.ucg']]))
     # the same base names in two directories: whatever is shared must be keyed by the file, not by the spelling of the import
     P.append((Project('same_name', {
         'x/lib.ucg': 'let v = "from x";\nout json {v = v};\n',
         'y/lib.ucg': 'let v = 2;\nout json {v = v};\n',
-        'x/conf.ucg': 'let l = import "lib.ucg";\nout yaml {v = l.v};\n',
-        'y/conf.ucg': 'let l = import "lib.ucg";\nout yaml {v = l.v + 1};\n',
-        'conf.ucg': 'let x = import "x/conf.ucg";\nlet y = import "y/conf.ucg";\nlet yl = import "y/../y/lib.ucg";\nout yaml {x = x.l.v, y = y.l.v, yl = yl.v};\n',
+        'x/conf.ucg': 'let l = import "lib.ucg";\nlet w = l.v + "!";\nout yaml {v = l.v, w = w};\n',
+        'y/conf.ucg': 'let l = import "lib.ucg";\nlet w = l.v + 1;\nout yaml {v = l.v + 1, w = w};\n',
+        'conf.ucg': 'let x = import "x/conf.ucg";\nlet y = import "y/conf.ucg";\nlet yl = import "y/../y/lib.ucg";\nlet a = x.w + "s";\nlet b = y.w + yl.v;\n'
+                    'out yaml {x = x.l.v, y = y.l.v, yl = yl.v, a = a, b = b};\n',
     }), [['x/conf.ucg', 'y/conf.ucg'], ['y/conf.ucg', 'x/conf.ucg', 'conf.ucg'], ['conf.ucg', 'y/lib.ucg', 'x/lib.ucg'], ['x', 'y'], ['-r'], ['y/lib.ucg', 'x/../y/conf.ucg', './conf.ucg']]))
     # assert statements are no-ops for `ucg build`: nothing of them may reach the next file
     P.append((Project('asserts', {
@@ -382,7 +385,7 @@ def designed_projects():
 DIRS = ['', '', 'sub', 'sub/deep', 'lib', 'x', 'y']
 BASES = ['lib', 'conf', 'app', 'base', 'svc', 'main', 'util', 'site_test', 'db']
 FAILS = ['parse', 'type_own', 'not_import', 'import_plus_str', 'no_field', 'no_binding', 'fail', 'range', 'alt', 'unset_env', 'missing_import', 'two_outs', 'toml_null',
-         'constraint_type', 'not_import']
+         'constraint_type', 'not_import', 'int_plus_import', 'str_plus_import']
 
 
 def spell(rnd, src_dir, target):
@@ -412,16 +415,19 @@ def gen_project(rnd, idx):
             names.append(f)
     files = {}
     fails = {}
+    # every file exports `k`, of a type that differs from file to file; importers use it the way its type allows
+    ktype = {f: rnd.choice(['int', 'str', 'list', 'tuple']) for f in names}
+    KVAL = {'int': '%d', 'str': '"k%d"', 'list': '[%d, 1]', 'tuple': '{q = %d}'}
+    KUSE = {'int': '%s.k + 1', 'str': '%s.k + "s"', 'list': '%s.k + [0]', 'tuple': '%s.k.q + 1'}
     for i, f in enumerate(names):
         d = os.path.dirname(f)
         L = []
         pad = lambda: ('\n' * rnd.choice([0, 0, 1, 2])) + (' ' * rnd.choice([0, 0, 0, 2, 4]))
-        mods = []
+        mods, picks = [], []
         if i > 0 and rnd.random() < 0.85:
             k = min(i, rnd.choice([1, 1, 2, 3]))
             # libraries imported by several files: the first two files are favoured
             cands = names[:i]
-            picks = []
             for _ in range(k):
                 t = rnd.choice(cands[:2]) if rnd.random() < 0.5 else rnd.choice(cands)
                 if t not in picks:
@@ -447,12 +453,16 @@ def gen_project(rnd, idx):
         if rnd.random() < 0.2:
             nm = 'env.%s' % SET_VAR
         L.append('%slet name = %s;' % (pad(), nm))
+        L.append('%slet k = %s;' % (pad(), KVAL[ktype[f]] % rnd.randint(0, 99)))
         L.append('%slet t = {a = v, b = name};' % pad())
         L.append('%slet l = [v, %d];' % (pad(), rnd.randint(0, 9)))
         if rnd.random() < 0.5:
             L.append('%slet f = func(x%s) => x + %d;' % (pad(), rnd.choice(['', ' :: 0']), rnd.randint(1, 9)))
         fields = ['v = v', 'name = name']
-        for m in mods:
+        for m, t in zip(mods, picks if mods else []):
+            if rnd.random() < 0.7:
+                L.append('%slet k_%s = %s;' % (pad(), m, KUSE[ktype[t]] % m))
+                fields.append('k_%s = k_%s' % (m, m))
             k = rnd.random()
             if k < 0.3:
                 L.append('%slet u_%s = %s.t.a * 2;' % (pad(), m, m))
@@ -461,14 +471,15 @@ def gen_project(rnd, idx):
                 L.append('%slet u_%s = %s.name + "!";' % (pad(), m, m))
                 fields.append('u_%s = u_%s' % (m, m))
             elif k < 0.7:
-                L.append('%slet u_%s = %s.t{c = %s.l};' % (pad(), m, m, m))
+                L.append('%slet w_%s = %s.t;' % (pad(), m, m))
+                L.append('%slet u_%s = w_%s{c = %s.l};' % (pad(), m, m, m))
             elif k < 0.8:
                 L.append('%slet u_%s :: {a = 0, b = ""} = %s.t;' % (pad(), m, m))
         if std == 'lists':
             L.append('%slet n_l = lists.len(l);' % pad())
             fields.append('n_l = n_l')
         elif std == 'tuples':
-            L.append('%slet t_f = tuples.fields(t);' % pad())
+            L.append('%slet t_f = tuples.fields{tpl = t};' % pad())
         if rnd.random() < 0.2:
             L.append('%sassert {ok = v %s v, desc = "assert in %s"};' % (pad(), rnd.choice(['==', '!=']), os.path.basename(f)))
         fmt = rnd.choice(sorted(EXT)) if rnd.random() < 0.65 else None
@@ -477,19 +488,19 @@ def gen_project(rnd, idx):
             flds = fields if fmt in ('json', 'yaml', 'toml') else fields[:2]
             outline = '%sout %s {%s};' % (pad(), fmt, ', '.join(flds))
         bad = None
-        if rnd.random() < 0.38:
+        if rnd.random() < (0.15 if i < 2 else 0.4):   # the files most others import fail less often, or nearly everything fails
             kind = rnd.choice(FAILS)
             m = rnd.choice(mods) if mods else None
             bad = {'parse': 'let oops = ;', 'type_own': 'let bad = v + "s";', 'fail': 'let boom = fail "boom @ in %s" %% (v);' % os.path.basename(f),
                    'range': 'let r :: in 100..200 = v;', 'alt': 'let r :: "x" | "y" = name;', 'unset_env': 'let e = env.%s;' % UNSET_VAR,
                    'missing_import': 'let gone = import "%s";' % spell(rnd, d, os.path.join(rnd.choice(dirs), 'nothere.ucg')),
                    'two_outs': 'out json {second = v};', 'toml_null': None, 'constraint_type': 'let c :: "" = v;'}.get(kind)
-            if kind in ('not_import', 'import_plus_str', 'no_field', 'no_binding'):
+            if kind in ('not_import', 'import_plus_str', 'no_field', 'no_binding', 'int_plus_import', 'str_plus_import'):
                 if m is None:
                     kind, bad = 'type_own', 'let bad = v + "s";'
                 else:
                     bad = {'not_import': 'let bad = not %s;' % m, 'import_plus_str': 'let bad = %s.v + "s";' % m, 'no_field': 'let bad = %s.t.nofield;' % m,
-                           'no_binding': 'let bad = %s.nosuch;' % m}[kind]
+                           'no_binding': 'let bad = %s.nosuch;' % m, 'int_plus_import': 'let bad = 1 + %s;' % m, 'str_plus_import': 'let bad = "s" + %s;' % m}[kind]
             if kind == 'toml_null':
                 outline = '%sout toml {v = v, z = NULL};' % pad()
             if kind == 'two_outs' and outline is None:
@@ -520,7 +531,8 @@ def respell(rnd, f):
 
 
 def make_configs(proj, rnd, tier, must=(), budget=12):
-    """-> list of (args, twice): the `must` lists, then `budget` more drawn in turn from the shape families"""
+    """-> list of (args, twice): the `must` lists, every order of the whole list when it has <= 3 (thorough: 4) files, then `budget` more drawn in turn
+    from the shape families (sampled orders of longer lists, directory modes, repetitions, ordered pairs, other spellings, ordered triples)"""
     fs = proj.order
     n = len(fs)
     thorough = tier == 'thorough'
@@ -557,10 +569,16 @@ def make_configs(proj, rnd, tier, must=(), budget=12):
     for _ in range(4):
         sel = rnd.sample(fs, rnd.randint(2, min(n, 4)))
         spelled.append([respell(rnd, f) for f in sel] + ([respell(rnd, sel[0])] if rnd.random() < 0.3 else []))
-    fams = [perms, dmodes, reps, pairs, spelled, perms, pairs, triples]
     cfgs = [(list(m), i == 0) for i, m in enumerate(must)]
     seen = set(tuple(m) for m in must)
     first = set()
+    if n <= (4 if thorough else 3):
+        # every order of the whole list, outside the budget
+        cfgs += [(p, i == 0) for i, p in enumerate(perms) if tuple(p) not in seen]
+        seen.update(tuple(p) for p in perms)
+        perms = []
+        first.add(0)
+    fams = [perms, dmodes, reps, pairs, spelled, perms, pairs, triples]
     while budget > 0 and any(fams):
         for k, fam in enumerate(fams):
             while fam and tuple(fam[0]) in seen:
@@ -582,8 +600,10 @@ ORACLE = ('per file: printed lines (diagnostic, file, line:column, TRACE) equal 
 
 
 def finish(name, bound, items, res):
-    n_alone, n_batch, v = res
+    n_alone, n_batch, n_skipped, v = res
     bound = '%s; %d projects, %d builds alone, %d batch invocations' % (bound, len(items), n_alone, n_batch)
+    if n_skipped and not v:
+        bound += ' (%d of %d configurations dropped from the tails of the lists: time limit of the tier reached)' % (n_skipped, sum(len(c) for _, c in items))
     if v:
         return dict(name=name, bound=bound, cases=n_batch, status='violation', detail=v['detail'][:900], input=v['input'])
     return dict(name=name, bound=bound, cases=n_batch, status='ok', detail=ORACLE)
@@ -595,11 +615,11 @@ def standin_batch_designed(tier, seed):
         rnd = random.Random(seed)
         items = []
         for proj, must in designed_projects():
-            items.append((proj, make_configs(proj, rnd, tier, must=must, budget=14 if tier == 'thorough' else 3)))
-        bound = ('8 designed projects of 3..6 files (shape-cache position, output locks, directory tree with `..` imports / std / TRACE / env, every way of failing x2, '
+            items.append((proj, make_configs(proj, rnd, tier, must=must, budget=12 if tier == 'thorough' else 2)))
+        bound = ('9 designed projects of 3..6 files (shape-cache position, output locks, directory tree with `..` imports / std / TRACE / env, every way of failing x2, libraries failing at run time, '
                  'equal base names, asserts, includes): designed file lists + orders, selections, repetitions, directory / -r / no-argument mode, other path spellings; '
                  'some invocations run twice in a row')
-        return finish(name, bound, items, run_all(items))
+        return finish(name, bound, items, run_all(items, 16 if tier == 'thorough' else 5.5))
     except Exception as e:
         return dict(name=name, bound='designed projects', cases=0, status='error', detail=repr(e)[:500])
 
@@ -612,12 +632,12 @@ def standin_batch_random(tier, seed):
         items = []
         for i in range(nproj):
             proj = gen_project(rnd, i)
-            items.append((proj, make_configs(proj, rnd, tier, budget=20 if tier == 'thorough' else 12)))
+            items.append((proj, make_configs(proj, rnd, tier, budget=18 if tier == 'thorough' else 9)))
         bound = ('%d random projects (seed %d) of 2..6 files in up to 3 directories: import DAG with several spellings (./, ..), std imports, TRACE, env, asserts, at most one '
-                 'out json|yaml|toml|env|flags per file, 38%% of the files failing in one of 14 ways; every order of the whole list up to %d files (sampled beyond), ordered '
+                 'out json|yaml|toml|env|flags per file, 15%% / 40%% of the files failing by themselves in one of 16 ways; every order of the whole list up to %d files (sampled beyond), ordered '
                  'selections of 2 and 3, repetitions, directory / -r / no-argument mode, other path spellings; some invocations run twice in a row' % (
                      nproj, seed, 4 if tier == 'thorough' else 3))
-        return finish(name, bound, items, run_all(items))
+        return finish(name, bound, items, run_all(items, 62 if tier == 'thorough' else 3.5))
     except Exception as e:
         return dict(name=name, bound='random projects', cases=0, status='error', detail=repr(e)[:500])
 
